@@ -322,53 +322,67 @@ func zipChecks(c *evid.Ctx, evals, nontriv *int64, maxLen int) {
 	rec(nil)
 	for _, seq := range seqs {
 		for _, hdr := range [][4]int64{{77, 5, 0, 0}, {1 << 40, -5, 3, 0}, {0, 0, 0, 9}} {
-			atomic.AddInt64(evals, 1)
-			if len(seq) > 0 {
-				atomic.AddInt64(nontriv, 1)
-			}
-			func() {
-				desc := fmt.Sprintf("ZipPack of inner packs %v with identity %v", seq, hdr)
-				defer func() {
-					if r := recover(); r != nil {
-						c.Violation("C03:ZipPack:inner:panic", fmt.Sprintf("%s: panic: %v", desc, r), nil)
+			// the inner packs carry an identity of their own (none / a complete one / a node only): the
+			// container's must replace it whichever header form either side uses
+			for _, inner := range [][4]int64{{0, 0, 0, 0}, {123, 45, 7, 9}, {0, 0, 0, 4}} {
+				if len(seq) == 0 && inner != [4]int64{} {
+					continue
+				}
+				atomic.AddInt64(evals, 1)
+				if len(seq) > 0 {
+					atomic.AddInt64(nontriv, 1)
+				}
+				func() {
+					desc := fmt.Sprintf("ZipPack of inner packs %v (own identity %v) with identity %v", seq, inner, hdr)
+					defer func() {
+						if r := recover(); r != nil {
+							c.Violation("C03:ZipPack:inner:panic", fmt.Sprintf("%s: panic: %v", desc, r), nil)
+						}
+					}()
+					var items []pack.Pack
+					for _, i := range seq {
+						it := pack.ToPack(pack.ToBytesPack(alpha[i]))
+						it.SetPCODE(inner[0])
+						it.SetOID(int32(inner[1]))
+						it.SetOKIND(int32(inner[2]))
+						it.SetONODE(int32(inner[3]))
+						items = append(items, it)
 					}
-				}()
-				var items []pack.Pack
-				for _, i := range seq {
-					items = append(items, alpha[i])
-				}
-				z := pack.NewZipPack()
-				z.Pcode, z.Oid, z.Okind, z.Onode = hdr[0], int32(hdr[1]), int32(hdr[2]), int32(hdr[3])
-				z.SetRecords(items)
-				dec := pack.ToPack(pack.ToBytesPack(z))
-				dz, ok := dec.(*pack.ZipPack)
-				if !ok {
-					c.Violation("C03:ZipPack:inner:type", fmt.Sprintf("%s: decoded to %T", desc, dec), nil)
-					return
-				}
-				got := dz.GetRecords()
-				if len(got) != len(items) || dz.RecordCount != len(items) {
-					c.Violation("C03:ZipPack:inner:count", fmt.Sprintf("%s: %d records returned, RecordCount %d", desc, len(got), dz.RecordCount), nil)
-					return
-				}
-				for i, it := range items {
-					// expected: the original inner pack stamped with the container's identity
-					want := pack.ToPack(pack.ToBytesPack(it))
-					want.SetPCODE(z.Pcode)
-					want.SetOID(z.Oid)
-					want.SetOKIND(z.Okind)
-					want.SetONODE(z.Onode)
-					if !bytes.Equal(pack.ToBytesPack(want), pack.ToBytesPack(got[i])) {
-						c.Violation("C03:ZipPack:inner:content", fmt.Sprintf("%s: inner pack %d (%T) is not the original stamped with the container's pcode/oid/okind/onode", desc, i, it), nil)
+					z := pack.NewZipPack()
+					z.Pcode, z.Oid, z.Okind, z.Onode = hdr[0], int32(hdr[1]), int32(hdr[2]), int32(hdr[3])
+					z.SetRecords(items)
+					dec := pack.ToPack(pack.ToBytesPack(z))
+					dz, ok := dec.(*pack.ZipPack)
+					if !ok {
+						c.Violation("C03:ZipPack:inner:type", fmt.Sprintf("%s: decoded to %T", desc, dec), nil)
 						return
 					}
-				}
-			}()
+					got := dz.GetRecords()
+					if len(got) != len(items) || dz.RecordCount != len(items) {
+						c.Violation("C03:ZipPack:inner:count", fmt.Sprintf("%s: %d records returned, RecordCount %d", desc, len(got), dz.RecordCount), nil)
+						return
+					}
+					for i, it := range items {
+						// expected: the original inner pack stamped with the container's identity
+						want := pack.ToPack(pack.ToBytesPack(it))
+						want.SetPCODE(z.Pcode)
+						want.SetOID(z.Oid)
+						want.SetOKIND(z.Okind)
+						want.SetONODE(z.Onode)
+						if !bytes.Equal(pack.ToBytesPack(want), pack.ToBytesPack(got[i])) {
+							c.Violation("C03:ZipPack:inner:content", fmt.Sprintf("%s: inner pack %d (%T) is not the original stamped with the container's pcode/oid/okind/onode", desc, i, it), nil)
+							return
+						}
+					}
+				}()
+			}
 		}
 	}
 	// log-sink zip: concatenated LogSinkPacks, compression exactly from the threshold
+	var innerID, contID [4]int64
 	mk := func(i int) *pack.LogSinkPack {
 		l := pack.NewLogSinkPack()
+		l.Pcode, l.Oid, l.Okind, l.Onode = innerID[0], int32(innerID[1]), int32(innerID[2]), int32(innerID[3])
 		l.Category = "app"
 		l.Content = fmt.Sprintf("content-%d-%s", i, string(bytes.Repeat([]byte{'x'}, i*40)))
 		l.Line = int64(i)
@@ -379,62 +393,65 @@ func zipChecks(c *evid.Ctx, evals, nontriv *int64, maxLen int) {
 		}
 		return l
 	}
-	for n := 0; n <= maxLen+1; n++ {
-		out := gio.NewDataOutputX()
-		var orig []*pack.LogSinkPack
-		for i := 0; i < n; i++ {
-			l := mk(i)
-			orig = append(orig, l)
-			pack.WritePack(out, l)
-		}
-		raw := append([]byte{}, out.ToByteArray()...)
-		for _, th := range []int{0, len(raw) - 1, len(raw), len(raw) + 1, 1 << 20} {
-			if th < 0 {
-				continue
+	for _, ids := range [][2][4]int64{{{88, 7, 6, 5}, {0, 0, 0, 0}}, {{88, 7, 6, 5}, {123, 45, 7, 9}}, {{88, 7, 0, 0}, {123, 45, 7, 9}}, {{0, 0, 0, 0}, {0, 0, 0, 4}}} {
+		contID, innerID = ids[0], ids[1]
+		for n := 0; n <= maxLen+1; n++ {
+			out := gio.NewDataOutputX()
+			var orig []*pack.LogSinkPack
+			for i := 0; i < n; i++ {
+				l := mk(i)
+				orig = append(orig, l)
+				pack.WritePack(out, l)
 			}
-			atomic.AddInt64(evals, 1)
-			atomic.AddInt64(nontriv, 1)
-			func() {
-				desc := fmt.Sprintf("LogSinkZipPack of %d records (%d bytes) with compression threshold %d", n, len(raw), th)
-				defer func() {
-					if r := recover(); r != nil {
-						c.Violation("C03:LogSinkZipPack:inner:panic", fmt.Sprintf("%s: panic: %v", desc, r), nil)
+			raw := append([]byte{}, out.ToByteArray()...)
+			for _, th := range []int{0, len(raw) - 1, len(raw), len(raw) + 1, 1 << 20} {
+				if th < 0 {
+					continue
+				}
+				atomic.AddInt64(evals, 1)
+				atomic.AddInt64(nontriv, 1)
+				func() {
+					desc := fmt.Sprintf("LogSinkZipPack (identity %v) of %d records (own identity %v, %d bytes) with compression threshold %d", contID, n, innerID, len(raw), th)
+					defer func() {
+						if r := recover(); r != nil {
+							c.Violation("C03:LogSinkZipPack:inner:panic", fmt.Sprintf("%s: panic: %v", desc, r), nil)
+						}
+					}()
+					z := pack.NewLogSinkZipPack()
+					z.Pcode, z.Oid, z.Okind, z.Onode = contID[0], int32(contID[1]), int32(contID[2]), int32(contID[3])
+					z.RecordCount = n
+					z.SetRecords(append([]byte{}, raw...), th)
+					wantZip := len(raw) >= th
+					if (z.Status == pack.ZIPPED) != wantZip {
+						c.Violation("C03:LogSinkZipPack:threshold", fmt.Sprintf("%s: status %d", desc, z.Status), nil)
 					}
-				}()
-				z := pack.NewLogSinkZipPack()
-				z.Pcode, z.Oid, z.Okind, z.Onode = 88, 7, 6, 5
-				z.RecordCount = n
-				z.SetRecords(append([]byte{}, raw...), th)
-				wantZip := len(raw) >= th
-				if (z.Status == pack.ZIPPED) != wantZip {
-					c.Violation("C03:LogSinkZipPack:threshold", fmt.Sprintf("%s: status %d", desc, z.Status), nil)
-				}
-				if z.Status == pack.ZIPPED {
-					if un, err := compressutil.UnZip(z.Records); err != nil || !bytes.Equal(un, raw) {
-						c.Violation("C03:LogSinkZipPack:gzip", fmt.Sprintf("%s: payload does not decompress to the records (%v)", desc, err), nil)
+					if z.Status == pack.ZIPPED {
+						if un, err := compressutil.UnZip(z.Records); err != nil || !bytes.Equal(un, raw) {
+							c.Violation("C03:LogSinkZipPack:gzip", fmt.Sprintf("%s: payload does not decompress to the records (%v)", desc, err), nil)
+						}
+					} else if !bytes.Equal(z.Records, raw) {
+						c.Violation("C03:LogSinkZipPack:payload", desc+": uncompressed payload differs from the records", nil)
 					}
-				} else if !bytes.Equal(z.Records, raw) {
-					c.Violation("C03:LogSinkZipPack:payload", desc+": uncompressed payload differs from the records", nil)
-				}
-				dec, ok := pack.ToPack(pack.ToBytesPack(z)).(*pack.LogSinkZipPack)
-				if !ok {
-					c.Violation("C03:LogSinkZipPack:inner:type", desc+": wrong decoded type", nil)
-					return
-				}
-				got := dec.GetRecords()
-				if len(got) != n {
-					c.Violation("C03:LogSinkZipPack:inner:count", fmt.Sprintf("%s: %d records returned", desc, len(got)), nil)
-					return
-				}
-				for i, l := range orig {
-					want := pack.ToPack(pack.ToBytesPack(l)).(*pack.LogSinkPack)
-					want.Pcode, want.Oid, want.Okind, want.Onode = 88, 7, 6, 5
-					if !bytes.Equal(pack.ToBytesPack(want), pack.ToBytesPack(got[i])) {
-						c.Violation("C03:LogSinkZipPack:inner:content", fmt.Sprintf("%s: record %d differs from the original stamped with the container's identity", desc, i), nil)
+					dec, ok := pack.ToPack(pack.ToBytesPack(z)).(*pack.LogSinkZipPack)
+					if !ok {
+						c.Violation("C03:LogSinkZipPack:inner:type", desc+": wrong decoded type", nil)
 						return
 					}
-				}
-			}()
+					got := dec.GetRecords()
+					if len(got) != n {
+						c.Violation("C03:LogSinkZipPack:inner:count", fmt.Sprintf("%s: %d records returned", desc, len(got)), nil)
+						return
+					}
+					for i, l := range orig {
+						want := pack.ToPack(pack.ToBytesPack(l)).(*pack.LogSinkPack)
+						want.Pcode, want.Oid, want.Okind, want.Onode = contID[0], int32(contID[1]), int32(contID[2]), int32(contID[3])
+						if !bytes.Equal(pack.ToBytesPack(want), pack.ToBytesPack(got[i])) {
+							c.Violation("C03:LogSinkZipPack:inner:content", fmt.Sprintf("%s: record %d differs from the original stamped with the container's identity", desc, i), nil)
+							return
+						}
+					}
+				}()
+			}
 		}
 	}
 }
